@@ -374,15 +374,37 @@ impl<const M: usize> Drv<M> {
 
     fn check_contents(&mut self) {
         // C10: the safe and the raw chunk iterators yield the same sequence
+        let mut iter_msgs: Vec<String> = Vec::new();
         if let Some(b) = self.bump.as_mut() {
             let raw: Vec<(usize, usize)> = unsafe { b.iter_allocated_chunks_raw().map(|(p, l)| (p as usize, l)).collect() };
             let safe: Vec<(usize, usize)> = b.iter_allocated_chunks().map(|c| (c.as_ptr() as usize, c.len())).collect();
             if raw != safe {
                 let show = |v: &Vec<(usize, usize)>| v.iter().map(|(p, l)| format!("{}:{}", p, l)).collect::<Vec<_>>().join(",");
                 let msg = format!("K bad chunk iterators disagree raw=[{}] safe=[{}]", show(&raw), show(&safe));
-                self.line(&msg);
+                iter_msgs.push(msg);
+            }
+            // the other ways of consuming the two iterators (last, count, nth, fold through size_hint-using
+            // adaptors) and an iterator that has already run to its end: all consistent with the sequence
+            let want_last = raw.last().copied();
+            let raw_last = unsafe { b.iter_allocated_chunks_raw().last().map(|(p, l)| (p as usize, l)) };
+            let raw_count = unsafe { b.iter_allocated_chunks_raw().count() };
+            let raw_nth1 = unsafe { b.iter_allocated_chunks_raw().nth(1).map(|(p, l)| (p as usize, l)) };
+            let raw_done_last = unsafe { let mut it = b.iter_allocated_chunks_raw(); while it.next().is_some() {} (it.next().is_none(), it.last().is_none()) };
+            let safe_last = b.iter_allocated_chunks().last().map(|c| (c.as_ptr() as usize, c.len()));
+            let safe_count = b.iter_allocated_chunks().count();
+            let safe_nth1 = b.iter_allocated_chunks().nth(1).map(|c| (c.as_ptr() as usize, c.len()));
+            let safe_done_last = { let mut it = b.iter_allocated_chunks(); while it.next().is_some() {} (it.next().is_none(), it.last().is_none()) };
+            let skipped: Vec<(usize, usize)> = b.iter_allocated_chunks().skip(1).map(|c| (c.as_ptr() as usize, c.len())).collect();
+            if raw_last != want_last || safe_last != want_last || raw_count != raw.len() || safe_count != raw.len()
+                || raw_nth1 != raw.get(1).copied() || safe_nth1 != raw.get(1).copied()
+                || raw_done_last != (true, true) || safe_done_last != (true, true)
+                || skipped[..] != raw[raw.len().min(1)..] {
+                let msg = format!("K bad chunk iterators: last/count/nth/skip or an exhausted iterator disagree with the sequence: chunks={} raw_last={:?} safe_last={:?} counts={}/{} exhausted={:?}/{:?}",
+                    raw.len(), raw_last, safe_last, raw_count, safe_count, raw_done_last, safe_done_last);
+                iter_msgs.push(msg);
             }
         }
+        for m in iter_msgs { self.line(&m); }
         let mut bad = None;
         let mut n = 0;
         for (i, b) in self.blks.iter().enumerate() {
